@@ -342,9 +342,74 @@ Record fstate := mkFs { fs_T : table; fs_fops : list fop; fs_st : st;
    path too, because the form end still closes what the form owns *)
 Inductive rres := ROk (x : fstate) | RExc (k : ekind) (x : fstate) | RCrash.
 
+(* an existing destination port: release what the form owns there.  Returns the
+   state, the ownership flags and the deferred-close list afterwards. *)
+Definition release (fl : flavour) (x : fstate) (d : nat) : st * list fop * list handle :=
+  let T1 := grow None (fs_T x) d in
+  let F1 := grow fop0 (fs_fops x) d in
+  match tget T1 d with
+  | Some p =>
+    match fl with
+    | Impl => (close_fop (fs_st x) (nth d F1 fop0) p, list_upd F1 d fop0, fs_defer x)
+              (* DEFECT: closes the file even if another fd still shares the port *)
+    | Spec => (fs_st x, list_upd F1 d fop0,
+               if fo_file (nth d F1 fop0)
+               then match p_file p with Some h => h :: fs_defer x | None => fs_defer x end
+               else fs_defer x)
+    end
+  | None => (fs_st x, F1, fs_defer x)
+  end.
+
+(* store port p at d; own: the form owns its file *)
+Definition install (T1 : table) (F2 : list fop) (df : list handle) (d : nat)
+    (p : port) (own : bool) (s' : st) : fstate :=
+  mkFs (list_upd T1 d (Some p))
+       (if own then list_upd F2 d (mkFop true (fo_chan (nth d F2 fop0))) else F2) s' df.
+
+(* the source of a redirection, evaluated against table T1 in state s1:
+   the port to install and whether the form owns its file *)
+Inductive sres := SPort (p : port) (own : bool) (s : st) | SExc (k : ekind) | SCrash.
+
+Definition eval_src (fl : flavour) (objs : list obj) (T1 : table) (s1 : st) (r : redir) : sres :=
+  match r_src r with
+  | SClose => SPort closed_port false s1
+  | SFd f =>
+    match f with
+    | FdBad => SExc EBadValue
+    | _ =>
+      let v := match f with FdNum z => z | FdName n => Z.of_nat n | FdBad => 0%Z end in
+      if (v <? 0)%Z then
+        match fl with
+        | Spec => SExc EInvalidFD
+        | Impl => if (v =? -1)%Z then SPort closed_port false s1   (* DEFECT: -1 means close *)
+                  else SCrash                                       (* DEFECT: fm.ports[-n] *)
+        end
+      else match tget T1 (Z.to_nat v) with
+           | None => SExc EInvalidFD
+           | Some p => SPort p false s1
+           end
+    end
+  | SFile pth =>
+    match open_file s1 pth (makeFlag (r_mode r)) with
+    | None => SExc EOpen
+    | Some (i, s2) => SPort (fileRedirPort (r_mode r) (HOfd i)) true s2
+    end
+  | SObj k =>
+    match nth_error objs k with
+    | None => SExc EBadValue
+    | Some (OFile h) => SPort (fileRedirPort (r_mode r) h) false s1
+    | Some (OMap rd wr) =>
+      match r_mode r with
+      | MRead => match rd with Some h => SPort (fileRedirPort MRead h) false s1 | None => SExc EBadValue end
+      | MWrite => match wr with Some h => SPort (fileRedirPort MWrite h) false s1 | None => SExc EBadValue end
+      | _ => SExc EOpen         (* can only use < or > with maps: a plain error *)
+      end
+    end
+  | SBad => SExc EBadValue
+  end.
+
 (* one redirection.  [objs]: environment of file objects / maps. *)
 Definition exec_redir (fl : flavour) (objs : list obj) (x : fstate) (r : redir) : rres :=
-  let s := fs_st x in
   match eval_dst r with
   | None => RExc EBadValue x
   | Some dz =>
@@ -353,60 +418,11 @@ Definition exec_redir (fl : flavour) (objs : list obj) (x : fstate) (r : redir) 
     else
     let d := Z.to_nat dz in
     let T1 := grow None (fs_T x) d in
-    let F1 := grow fop0 (fs_fops x) d in
-    (* an existing destination port: release what the form owns there *)
-    let '(s1, F2, df) :=
-      match tget T1 d with
-      | Some p =>
-        match fl with
-        | Impl => (close_fop s (nth d F1 fop0) p, list_upd F1 d fop0, fs_defer x)
-                  (* DEFECT: closes the file even if another fd still shares the port *)
-        | Spec => (s, list_upd F1 d fop0,
-                   if fo_file (nth d F1 fop0)
-                   then match p_file p with Some h => h :: fs_defer x | None => fs_defer x end
-                   else fs_defer x)
-        end
-      | None => (s, F1, fs_defer x)
-      end in
-    let setp (p : port) (own : bool) (s' : st) :=
-      ROk (mkFs (list_upd T1 d (Some p))
-                (if own then list_upd F2 d (mkFop true (fo_chan (nth d F2 fop0))) else F2) s' df) in
-    let fail (k : ekind) := RExc k (mkFs T1 F2 s1 df) in
-    match r_src r with
-    | SClose => setp closed_port false s1
-    | SFd f =>
-      match f with
-      | FdBad => fail EBadValue
-      | _ =>
-        let v := match f with FdNum z => z | FdName n => Z.of_nat n | FdBad => 0%Z end in
-        if (v <? 0)%Z then
-          match fl with
-          | Spec => fail EInvalidFD
-          | Impl => if (v =? -1)%Z then setp closed_port false s1   (* DEFECT: -1 means close *)
-                    else RCrash                                      (* DEFECT: fm.ports[-n] *)
-          end
-        else match tget T1 (Z.to_nat v) with
-             | None => fail EInvalidFD
-             | Some p => setp p false s1
-             end
-      end
-    | SFile pth =>
-      match open_file s1 pth (makeFlag (r_mode r)) with
-      | None => fail EOpen
-      | Some (i, s2) => setp (fileRedirPort (r_mode r) (HOfd i)) true s2
-      end
-    | SObj k =>
-      match nth_error objs k with
-      | None => fail EBadValue
-      | Some (OFile h) => setp (fileRedirPort (r_mode r) h) false s1
-      | Some (OMap rd wr) =>
-        match r_mode r with
-        | MRead => match rd with Some h => setp (fileRedirPort MRead h) false s1 | None => fail EBadValue end
-        | MWrite => match wr with Some h => setp (fileRedirPort MWrite h) false s1 | None => fail EBadValue end
-        | _ => fail EOpen         (* can only use < or > with maps: a plain error *)
-        end
-      end
-    | SBad => fail EBadValue
+    let '(s1, F2, df) := release fl x d in
+    match eval_src fl objs T1 s1 r with
+    | SPort p own s2 => ROk (install T1 F2 df d p own s2)
+    | SExc k => RExc k (mkFs T1 F2 s1 df)
+    | SCrash => RCrash
     end
   end.
 
